@@ -44,7 +44,8 @@ def make_world():
         InputField("req", NonNullType(Int)), InputField("opt", Int), InputField("dflt", Int, default_value=7),
         InputField("py", String, python_name="py_name"), InputField("self", inp), InputField("col", color, default_value="blue"),
     ])
-    return {"Int": Int, "String": String, "Boolean": Boolean, "ID": ID, "Color": color, "In": inp}
+    box = InputObjectType("Box", [InputField("xs", ListType(NonNullType(Int))), InputField("ys", ListType(Int))])
+    return {"Int": Int, "String": String, "Boolean": Boolean, "ID": ID, "Color": color, "In": inp, "Box": box}
 
 
 def parse_texpr(world, t):
@@ -423,8 +424,12 @@ NESTED_POSITIONS = (
     ("In", "{req: 1, opt: $v}", ("field", "opt", False, False)), ("In", "{req: 1, dflt: $v}", ("field", "dflt", False, True)), ("In", "{req: $v}", ("field", "req", True, False)),
     ("[Int]", "[1, $v]", ("item", None, False, False)), ("[Int!]", "[1, $v]", ("item", None, True, False)),
     ("In", "{req: 1, self: {req: 2, opt: $v}}", ("nested-field", "opt", False, False)), ("[In]", "[{req: $v}]", ("item-field", "req", True, False)),
+    # (appended) deeper list positions: item of an inner list, item of a list inside an object literal, the only item of a non-null list
+    ("[[Int!]]", "[[1], [$v]]", ("item2", None, True, False)), ("[[Int]]", "[[1], [$v]]", ("item2", None, False, False)),
+    ("Box", "{xs: [$v, 2]}", ("box-item", "xs", True, False)), ("Box", "{ys: [$v, 2]}", ("box-item", "ys", False, False)),
+    ("[Int!]!", "[$v]", ("item-only", None, True, False)),
 )
-NESTED_SUPPLIES = ("value", "null", "omitted", "omitted-vdefault", "value-vdefault")
+NESTED_SUPPLIES = ("value", "null", "omitted", "omitted-vdefault", "value-vdefault", "null-vdefault")
 
 
 def _nested_variables(pos: int, supply: int, var_nonnull: bool) -> bool:
@@ -439,14 +444,14 @@ def _nested_variables(pos: int, supply: int, var_nonnull: bool) -> bool:
         return result(True, False)
     with untraced():
         decl = "$v: Int%s%s" % ("!" if VNN else "", " = 9" if "vdefault" in SU else "")
-        variables = {"value": {"v": 4}, "null": {"v": None}, "omitted": {}, "omitted-vdefault": {}, "value-vdefault": {"v": 4}}[SU]
+        variables = {"value": {"v": 4}, "null": {"v": None}, "omitted": {}, "omitted-vdefault": {}, "value-vdefault": {"v": 4}, "null-vdefault": {"v": None}}[SU]
         calls, res = run_request(at, "query (%s) { f(x: %s) }" % (decl, lit), variables)
         # ---- oracle: spec 5.8.5 (position), 6.1.2 (variables), 3.x literal coercion with variables (graphql reference: valueFromAST)
         allowed = not (pos_nonnull and not VNN and not ("vdefault" in SU or pos_default))
         if not allowed or (VNN and SU in ("null", "omitted")):
             return result(calls == [] and bool(res.errors), False)
         present = SU != "omitted"
-        value = {"value": 4, "null": None, "omitted-vdefault": 9, "value-vdefault": 4}.get(SU)
+        value = {"value": 4, "null": None, "omitted-vdefault": 9, "value-vdefault": 4, "null-vdefault": None}.get(SU)   # an explicit null wins over the variable default (6.1.2)
         if known.c07_omitted_variable_in_literal(present):
             return result(True, False)
         error = False
@@ -467,7 +472,7 @@ def _nested_variables(pos: int, supply: int, var_nonnull: bool) -> bool:
         else:
             item = value if present else None
             error = pos_nonnull and item is None
-            exp = [1, item]
+            exp = {"item": [1, item], "item2": [[1], [item]], "box-item": {fname: [item, 2]}, "item-only": [item]}[kind]
         if error:
             ok = calls == [] and bool(res.errors)
         else:
@@ -543,8 +548,8 @@ CONDITIONS = [
     ),
     Cond(
         name="nested_variables", fn=_nested_variables, quick=60, thorough=60,
-        bound="a variable used INSIDE a literal: 7 positions (optional / defaulted / required input-object field, item of [Int] and [Int!], field of a nested object, field of an object in a list) x 5 supplies "
-              "(value, null, omitted, omitted with a variable default, value with a variable default) x nullable / non-null variable: resolver kwargs equal the specification's literal coercion "
+        bound="a variable used INSIDE a literal: 12 positions (optional / defaulted / required input-object field, item of [Int] and [Int!], field of a nested object, field of an object in a list, item of an inner list, "
+              "item of a list inside an object literal, only item of [Int!]!) x 6 supplies (value, null, omitted, omitted with a variable default, value with a variable default, explicit null with a variable default) x nullable / non-null variable: resolver kwargs equal the specification's literal coercion "
               "(a variable without a runtime value = absent field / null item)",
         symbolic={"pos,supply,var_nonnull": "choice"}, assumptions=["oracle: spec 3.x literal input coercion with variables, 5.8.5, 6.1.2"],
         witness={"pos": 0, "supply": 0, "var_nonnull": False},
